@@ -1147,7 +1147,7 @@ def c13_cross_process(rep, tier, seed):
 
     child = r'''
 import sys, json, gc
-sys.path.insert(0, "/verif")
+sys.path.insert(0, %(root)r)
 import numpy as np, basix.ufl, ufl
 from ffcx import naming
 history = int(sys.argv[1])
@@ -1183,7 +1183,7 @@ print(json.dumps(out))
 '''
     res = {}
     for h in (0, 1):
-        r = subprocess.run([sys.executable, "-c", child, str(h)], capture_output=True, text=True, timeout=600,
+        r = subprocess.run([sys.executable, "-c", child.replace("%(root)r", repr(os.path.dirname(os.path.dirname(os.path.abspath(__file__))))), str(h)], capture_output=True, text=True, timeout=600,
                            env=dict(__import__("os").environ, PYTHONHASHSEED=str(h + seed % 3)))
         if r.returncode != 0:
             rep.error("c13 cross-process", r.stderr[-800:])
